@@ -521,14 +521,13 @@ def plan_A(quick):
         ]
     plan = [
         ("MM1-222", "base", 1, ("adj", "top"), True),
-        ("MM1-422", "base", 1, ("adj",), True),
         ("MV1-42", "base", 1, ("adj", "top"), True),
-        ("MV1-24", "base", 1, ("adj",), True),
+        ("MM1-422", "base", 1, ("adj",), False),
+        ("MV1-24", "base", 1, ("adj",), False),
     ]
     for row in ROWS:
         if row != "base":
             plan.append(("MM1-222", row, 1, ("adj",), False))
-            plan.append(("MV1-42", row, 1, ("adj",), False))
     return plan
 
 
